@@ -129,6 +129,39 @@ example : runProj (fun s => (s.wph 9, view s)) 1 (exPause.take 14)
 example : runProj (fun s => (s.wph 9, view s)) 1 exPause
     = some (.idle, ⟨2, 0, 1, 1, false, 0, 0, .parked, none, 0⟩) := by decide
 
+/-- conc = 1, pause() = `status.Store(paused); releaseWaiters(cur.Load())`.  Start and one Add have
+    happened, the token is pending, the event loop has not run yet.  Goroutine 9 sees running,
+    Len() = 1 and parks (5–8).  Goroutine 8 pauses: stores `paused` (9), loads cur = 0 and so owes a
+    Broadcast (10), locks, broadcasts to the one parked goroutine, unlocks (11–13).  9 wakes,
+    re-evaluates (paused, cur = 0) and returns (14–18), before the event loop has even taken the
+    token; the event loop's own post-loop Broadcast then reaches nobody (19–24). -/
+def exPauseBc : List Ev := [
+  .stStatus 7 running, .notify 7 true, .enq 5, .notify 5 false,
+  .lockMx 9, .wStatus 9 running, .wLen 9 1, .wPark 9,
+  .stStatus 8 paused, .pCur 8 0, .lockMx 8, .bcast 8 1, .unlockMx 8,
+  .wWake 9, .lockMx 9, .wStatus 9 paused, .wCur 9 0, .unlockMx 9,
+  .recvTok 0, .dStatus 0 paused, .dCur 0 0, .lockMx 0, .bcast 0 0, .unlockMx 0]
+
+example : exPauseBc.length = 24 := rfl
+-- 8: parked on a running worker with a job queued (dispatchable: the pending token covers that)
+example : runProj (fun s => (s.wph 9, view s)) 1 (exPauseBc.take 8)
+    = some (.parked, ⟨1, 0, 1, 1, true, 0, 0, .parked, none, 1⟩) := by decide
+-- 10: paused; pause() loaded cur = 0 and owes the Broadcast
+example : runProj (fun s => (s.owesBc 8, view s)) 1 (exPauseBc.take 10)
+    = some (1, ⟨2, 0, 1, 1, true, 0, 1, .parked, none, 1⟩) := by decide
+-- 12: the Broadcast signalled goroutine 9
+example : runProj (fun s => (s.wph 9, view s)) 1 (exPauseBc.take 12)
+    = some (.signalled, ⟨2, 0, 1, 1, true, 0, 0, .parked, some 8, 0⟩) := by decide
+-- 18: 9 has returned while the token is still pending
+example : runProj (fun s => (s.wph 9, view s)) 1 (exPauseBc.take 18)
+    = some (.idle, ⟨2, 0, 1, 1, true, 0, 0, .parked, none, 0⟩) := by decide
+-- 24: at rest
+example : runProj (fun s => (s.wph 9, view s)) 1 exPauseBc
+    = some (.idle, ⟨2, 0, 1, 1, false, 0, 0, .parked, none, 0⟩) := by decide
+-- with slots in use pause() does not broadcast (the last release will); a wrong loaded value is rejected
+example : runProj (fun s => s.nOwesBc) 1 ((exWait.take 20) ++ [.stStatus 8 paused, .pCur 8 1]) = some 0 := by decide
+example : runProj view 1 ((exWait.take 20) ++ [.stStatus 8 paused, .pCur 8 0]) = none := by decide
+
 -- rejected: a Broadcast without the mutex, a Broadcast nobody owed, a Broadcast that reports the wrong
 -- number of woken goroutines, Cond.Wait returning without a Broadcast, w.mx taken twice, Cond.Wait
 -- after condition() = false
